@@ -15,6 +15,7 @@ from pyvc.vals import *       # noqa
 from pyvc.interp import MISSING
 from pyvc.ctx import Unsupported
 from . import common
+from .common import emit, events_named
 
 BCP = "mpf/core/bcp/bcp_socket_client.py"
 S = z3.StringSort()
@@ -332,3 +333,87 @@ def build():
     C.assume("one parameter per message (the encode/decode loops keep no state between parameters); the parameter "
              "name 'json' and nested list/dict values (JSON path, json.loads . json.dumps) are outside")
     return C
+
+
+BI = "mpf/core/bcp/bcp_interface.py"
+
+
+def dispatch_set():
+    """a decoded message reaches the handler registered for its command with EXACTLY the decoded parameters - the
+    byte payload included - whatever the logging settings"""
+    C = ContractSet("C19d", "BCP dispatch hands on the decoded parameters unchanged")
+    C.strings = False
+    C.cls("MpfController", fields={})
+    C.cls("BcpClient", fields=dict(name=Str))
+    C.cls("Transport", fields={})
+    C.ext("Transport.send_to_client", model=lambda I, env, a, k: (emit(I, "send_to_client"), NONE)[1],
+          trusted_reason="BCP transport (encode: C19 main set)")
+
+    def deepcopy_model(I, args, kwargs):
+        v = I.force(args[0])
+        if v.tag == "dict":
+            return I.new_dict(tuple(I.container(v.ref).entries), "deepcopy")
+        return v
+    C.globals["deepcopy"] = VFn("model", model=deepcopy_model)
+
+    def msg_kwargs(I, name):
+        ents = [("a", VInt(z3.Int(name + "[a]")))]
+        if I.ctx.fork(2) == 1:
+            ents.append(("rawbytes", VStr(z3.String(name + "[rawbytes]"), True)))
+        I.__dict__["c19_kwargs"] = ents
+        return I.new_dict(tuple(ents))
+    HANDLER = VOpaque("Fn", z3.Const("bcp_handler", usort("Fn")))
+    C.cls("BcpInterface", file=BI, bases=["MpfController"], fields=dict(
+        _debug_to_console=Bool, _debug_to_file=Bool,
+        bcp_receive_commands=Init(lambda I, n: I.new_dict((("known", HANDLER),))),
+        machine=ObjS("MachineController", bcp=ObjS("Bcp", transport=ObjS("Transport")))))
+    C.helpers["on_opaque_call"] = lambda I, fn, a, k: NONE
+
+    def handed_on(I, client):
+        """the handler was called exactly once with client=<client> and every decoded parameter, value unchanged"""
+        evs = events_named(I, "callback")
+        if len(evs) != 1:
+            return VBool(False)
+        e = evs[0]
+        kw = dict(e.args["kwargs"])
+        want = dict(I.__dict__.get("c19_kwargs", []))
+        if sorted(kw) != sorted(list(want) + ["client"]):
+            return VBool(False)
+        cs = [I.eq(e.args["fn"], HANDLER), I.eq(kw["client"], client)]
+        for k_, v_ in want.items():
+            got = I.force(kw[k_])
+            if got.tag != v_.tag:
+                return VBool(False)
+            cs.append(I.eq(got, v_))
+        return VBool(z3.And(cs))
+    C.helpers["handed_on"] = handed_on
+    C.helpers["n_callbacks"] = lambda I: VInt(len(events_named(I, "callback")))
+
+    def kwargs_untouched(I):
+        kw = I.frames[0].env["kwargs"]
+        new = dict(I.container(I.force(kw).ref).entries)
+        want = dict(I.__dict__.get("c19_kwargs", []))
+        if sorted(new) != sorted(want):
+            return VBool(False)
+        cs = []
+        for k_, v_ in want.items():
+            got = I.force(new[k_])
+            if got.tag != v_.tag:
+                return VBool(False)
+            cs.append(I.eq(got, v_))
+        return VBool(z3.And(cs + [z3.BoolVal(True)]))
+    C.helpers["kwargs_untouched"] = kwargs_untouched
+    C.trace_helpers = {"handed_on", "n_callbacks"}
+    C.fn("BcpInterface.process_bcp_message",
+         params=dict(cmd=Union(Const("known"), Const("unknown_cmd")), kwargs=Init(msg_kwargs), client=ObjS("BcpClient")),
+         ensures=[("D1: the handler of a known command gets the decoded parameters exactly as decoded (same names, "
+                   "values and types; the byte payload untouched) - with or without debug logging",
+                   "implies(cmd == 'known', handed_on(client) and kwargs_untouched())"),
+                  ("D2: an unknown command calls no handler", "implies(cmd != 'known', n_callbacks() == 0)")],
+         modifies=[], raises={}, skip_frame=True,
+         bounded="BOUNDED: one registered command; a message with one scalar parameter and an optional byte payload")
+    return C
+
+
+def build_extra():
+    return [dispatch_set()]
